@@ -212,9 +212,16 @@ def harness_run(prop, seed, n, tier, only=None, extra=None):
         cmd += ["--only", str(only)]
     if extra:
         cmd += extra
-    with open(cases, "w") as f:
-        p = subprocess.run(cmd, stdout=f, stderr=subprocess.PIPE, text=True, env=ENV)
-    return p.returncode, cases, p.stderr[-4000:]
+    errp = os.path.join(WORK, prop, "harness.stderr")
+    with open(cases, "w") as f, open(errp, "w") as ef:
+        # the repository prints debug output (dbg!) on some paths: keep it out of the pipes
+        p = subprocess.run(cmd, stdout=f, stderr=ef, text=True, env=ENV)
+    with open(errp, "rb") as ef:
+        ef.seek(0, 2)
+        size = ef.tell()
+        ef.seek(max(0, size - 4000))
+        tail = ef.read().decode("utf-8", "replace")
+    return p.returncode, cases, tail
 
 
 def driver_run(prop, cases, mode=None):
